@@ -139,7 +139,7 @@ def gen_workload(rng, tier):
          "knobs": {"buffer_size": rng.choice([1, 16, 128, 1024, 8192, 8192, 65536]),
                    "chunk_size": rng.choice([None, None, 64, 1024]),
                    # environment knob: the caller runs with warnings promoted to errors (python -W error)
-                   "warnings": "error" if rng.random() < 0.12 else "always"}}
+                   "warnings": "error" if rng.random() < 0.12 else "always", "pathlib": rng.random() < 0.1}}
     sel = rng.choices(["name", "explicit", "unknown", "unsupported"], [5, 4, 1, 1])[0]
     if op == "write_input":
         w["fmt"] = rng.choice(["gaussian", "orca"])
@@ -194,7 +194,7 @@ def gen_workload(rng, tier):
                 o["frame"] = 0
         else:
             objs = _frame_recipes(rng, fmt, n)
-        w["iter_kind"] = rng.choice(["list", "gen", "gen", "iterobj", "gen_raise"])
+        w["iter_kind"] = rng.choice(["list", "gen", "gen", "iterobj", "gen_raise", "gen_reentrant"])
         if w["iter_kind"] == "gen_raise":
             w["raise_at"] = rng.randint(0, n)
     w["objs"] = objs
@@ -309,6 +309,10 @@ def _call(w, objs, disk, tracker_box):
     from iodata import api
 
     path = w["filename"]
+    if (w.get("knobs") or {}).get("pathlib"):
+        import pathlib
+
+        path = pathlib.Path(path)  # a legal way to name the file
     op = w["op"]
     if op == "write_input":
         d = w.get("defect") or {}
@@ -327,7 +331,7 @@ def _call(w, objs, disk, tracker_box):
     fmt_arg = w["fmt"] if w["select"] == "explicit" else w.get("fmt_arg")
     if op == "dump_one":
         return iodata.dump_one(objs[0], path, fmt=fmt_arg, allow_changes=w["allow_changes"])
-    it, tracker = iters.make_iterable(disk, path, objs, w.get("iter_kind", "list"), w.get("raise_at"))
+    it, tracker = iters.make_iterable(disk, w["filename"], objs, w.get("iter_kind", "list"), w.get("raise_at"))
     tracker_box.append(tracker)
     return iodata.dump_many(it, path, fmt=fmt_arg, allow_changes=w["allow_changes"])
 
